@@ -658,6 +658,8 @@ def use1(ctx) -> List[Ob]:
                     continue  # same guards as the definitions
                 if real and _flag_guarded(fn.node, e.id, ug):
                     continue  # read under a flag that is set only where the variable is assigned
+                if real and all(any(isinstance(a, (ast.For, ast.While)) and not any(a is b for b in A.ancestors(e)) for a in A.ancestors(d.stmt)) or (isinstance(d.stmt, ast.For) and not any(d.stmt is b for b in A.ancestors(e))) for d in real):
+                    continue  # assigned by a loop that is assumed to run at least once (a zero-trip path is not reported)
                 # defined by every iteration of an enclosing loop that also runs the use? (loop body def before use)
                 flagged.add(e.id)
                 if not real:
